@@ -63,7 +63,9 @@ AllDescs == <<
   D(<<O1, O2>>, <<0, 0>>, 0, "eof", <<1, 2>>),                    \* 16 two opaque blocks
   D(<<W(11), W(22), O1>>, <<0, 0, 0>>, 0, "eof", <<1, 0, 2, 3>>), \* 17 unused slot with two live entries behind it
   D(<<W(11), W(22)>>, <<0, 0>>, 3, "live", <<2, 1>>),             \* 18 swapped order + trailing garbage
-  D(<<W(11), O1>>, <<0, 0>>, 0, "eof", <<1, 0, 0, 2>>)            \* 19 two unused slots in front of a live entry
+  D(<<W(11), O1>>, <<0, 0>>, 0, "eof", <<1, 0, 0, 2>>),           \* 19 two unused slots in front of a live entry
+  D(<<W(11)>>, <<0>>, 0, "stale", <<1>>),                         \* 20 only the first unused slot points at the end of the data, the spare ones at the end of the table
+  D(<<O1, W(22)>>, <<0, 0>>, 0, "stale", <<1, 2>>)                \* 21 the same behind a foreign block
 >>
 Fits(d) == Len(d.tord) <= N /\ \A i \in 1..Len(d.live) : TypeOfU(d.live[i].u) \in Types
 DescIds == {k \in DescSel : k \in 1..Len(AllDescs) /\ Fits(AllDescs[k])}
@@ -75,14 +77,17 @@ BuildFile(d) ==
       StartS(i) == EndS[i - 1] + d.gap[i]
       endLive == EndS[k]
       eof     == endLive + d.tail
-      freeOff == IF d.freeAt = "eof" THEN eof ELSE endLive
+      freeOff == IF d.freeAt = "live" THEN endLive ELSE eof
+      \* "stale": the first unused slot carries the end of the data (the library places the next
+      \* block there), the spare ones behind it still carry the end of the table
+      FreeOffAt(i) == IF d.freeAt = "stale" /\ i > Len(d.tord) + 1 THEN TE ELSE freeOff
       Ent(i)  == NewEntry(Blk(d.live[i].u, d.live[i].c), StartS(i))
       RECURSIVE DataFrom(_)
       DataFrom(i) == IF i > k THEN Hole(d.tail)
                      ELSE Hole(d.gap[i]) \o Whole(d.live[i].u, SizeOfU(d.live[i].u)) \o DataFrom(i + 1)
   IN [n |-> N, sigok |-> TRUE, version |-> 1,
       table |-> [i \in 1..N |-> IF i <= Len(d.tord) /\ d.tord[i] # 0 THEN Ent(d.tord[i])
-                                ELSE Unused(freeOff)],
+                                ELSE Unused(FreeOffAt(i))],
       data |-> Norm(DataFrom(1))]
 
 InitState(k) == LET f == BuildFile(AllDescs[k]) IN
